@@ -16,6 +16,7 @@ pub mod c13;
 pub mod c14;
 pub mod c15;
 pub mod c16;
+pub mod c17;
 
 use crate::evidence::Shard;
 use crate::runner::{Ctx, Plan};
@@ -37,6 +38,7 @@ pub fn plan_for(id: &str) -> Option<Plan> {
         "C14" => c14::plan(),
         "C15" => c15::plan(),
         "C16" => c16::plan(),
+        "C17" => c17::plan(),
         _ => return None,
     })
 }
@@ -58,6 +60,7 @@ pub fn shard_for(id: &str, ctx: &Ctx) -> Option<Shard> {
         "C14" => c14::shard(ctx),
         "C15" => c15::shard(ctx),
         "C16" => c16::shard(ctx),
+        "C17" => c17::shard(ctx),
         _ => return None,
     })
 }
